@@ -5,6 +5,7 @@
 -/
 import Vise.Driver.Codec
 import Vise.Driver.Cache
+import Vise.Driver.Render
 
 open Vise.Driver
 
@@ -14,6 +15,7 @@ def main (args : List String) : IO UInt32 := do
   match args with
   | ["codec"] => loop stdin stdout () codecStep; return 0
   | ["cache"] => loop stdin stdout () cacheStep; return 0
+  | ["render"] => loop stdin stdout () renderStep; return 0
   | _ =>
     IO.eprintln "usage: visemodel <suite>"
     return 2
